@@ -703,7 +703,7 @@ impl DScenario {
         let extreme = extreme_ok && rng.below(8) == 0;
         let scale = if extreme {
             if rng.chance(0.6) {
-                10f64.powf(300.0 + rng.f() * 7.5)
+                10f64.powf(300.0 + rng.f() * 8.07)
             } else {
                 10f64.powf(-300.0 - rng.f() * 7.0)
             }
@@ -753,7 +753,7 @@ impl DScenario {
                 let v = if kind == 8 {
                     z
                 } else if extreme {
-                    sign * (scale * z.abs().min(1.5))
+                    sign * (scale * z.abs().min(1.49))
                 } else {
                     off + scale * z
                 };
